@@ -66,6 +66,20 @@ fn ser(r: &Re) -> String {
         Re::Rep(..) => ser(&desugar(r)),
     }
 }
+/// cleanup_unrecognized_escape_sequences, ported (the function is private): a backslash stays before a metacharacter or an ASCII letter
+fn cleanup_port(e: &str) -> String {
+    let mut out = String::new();
+    let mut chars = e.chars();
+    while let Some(c) = chars.next() {
+        if c == '\\' {
+            match chars.next() {
+                Some(c2) => { if "[]{}()|?*+-.^$\\".contains(c2) || c2.is_ascii_alphabetic() { out.push(c); } out.push(c2); }
+                None => out.push(c),
+            }
+        } else { out.push(c); }
+    }
+    out
+}
 fn gen_re(r: &mut Rng, depth: u32) -> Re {
     let k = if depth == 0 { r.below(4) } else { r.below(9) };
     match k {
@@ -150,13 +164,16 @@ pub fn main(args: &[String], w: &mut dyn Write) {
         if i % 8 == 7 {
             // what RegexRule::make turns an arbitrary expression into before the crate sees it (unmake returns the prepared expression)
             let e = rand_str(&mut r, &['a', 'b', 'p', 'x', '\\', '{', '}', '[', ']', '<', '>', '1', '2', ',', '(', ')', '|', '.', '*', '+', '?', '^', '-', '#', '_', ' '], 10);
-            let e = if r.chance(1, 8) { r.pick(&["a<<<<3>>>>", "<<<<x>>>>b", "x<<<<1,2>>>>", "\\{3}", "a{1{2}", "\\\\{2}", "<<<<>>>>", "a{2}<<<<3>>>>{x}", "a{3,}", "a{,3}", "b{2,}{", "\\{1,}", "a{1,}{2,3}{,}", "\\p{L}+", "\\P{Greek}a{x}", "\\x{1F600}", "\\u{41}{2}", "\\p{L", "\\d{x}", "a\\p{L}{b}"]).to_string() } else { e };
+            let e = if r.chance(1, 8) { r.pick(&["a<<<<3>>>>", "<<<<x>>>>b", "x<<<<1,2>>>>", "\\{3}", "a{1{2}", "\\\\{2}", "<<<<>>>>", "a{2}<<<<3>>>>{x}", "a{3,}", "a{,3}", "b{2,}{", "\\{1,}", "a{1,}{2,3}{,}", "\\p{L}+", "\\P{Greek}a{x}", "\\x{1F600}", "\\u{41}{2}", "\\p{L", "\\d{x}", "a\\p{L}{b}", "[[:digit:]]+", "[a]b]", "[a-z&&[^aeiou]]", "[[:alpha:]]{x}", "\\<foo\\>"]).to_string() } else { e };
             if e.ends_with(' ') { continue; }
             let res = match std::panic::catch_unwind(std::panic::AssertUnwindSafe(|| mk.parse(&format!("{} (regex)", e)).map(|x| x.unmake()))) {
                 Err(_) => "panic".to_string(), Ok(Err(_)) => "err".into(), Ok(Ok((_, b, _, _))) => format!("x{}", hex(&b)) };
             // does the regex crate take the expression as it is written (whole-line form)?
             let as_written = regex::bytes::Regex::new(&format!("^(?:{})$", e)).is_ok();
-            writeln!(w, "M z {}|{}|{}", hex(e.as_bytes()), res, as_written as u8).unwrap();
+            // .. and after the clean-up of unknown escapes (ported here, compared with the model's by the driver): the verdict RegexRule::make goes by
+            let cleaned = cleanup_port(&e);
+            let cleaned_ok = regex::bytes::Regex::new(&format!("^(?:{})$", cleaned)).is_ok();
+            writeln!(w, "M z {}|{}|{}|{}|{}", hex(e.as_bytes()), res, as_written as u8, hex(cleaned.as_bytes()), cleaned_ok as u8).unwrap();
             continue;
         }
         match i % 5 {
